@@ -107,6 +107,20 @@ pub struct Obs {
     pub edge_bound: usize,
     pub node_indices: Vec<usize>,
     pub node_indices_rev: Vec<usize>,
+    /// the four whole-graph iterators consumed from both ends in a fixed irregular pattern,
+    /// put back into forward order: must equal the forward listings
+    pub node_indices_meet: Vec<usize>,
+    pub edge_indices_meet: Vec<usize>,
+    pub node_refs_meet: Vec<(usize, u32)>,
+    pub edge_refs_meet: Vec<EdgeObs>,
+    /// size_hint() of the same four, taken before the first item
+    pub size_hints: Vec<(usize, Option<usize>)>,
+    /// `g[node]` / `g[edge]` for every element the listings report
+    pub index_reads: Vec<(bool, usize, u32)>,
+    /// violations of the Iterator protocol (count / last / nth / fold / size_hint, also after a
+    /// consumed prefix) by any of the public iterators, and of the Visitable protocol on a
+    /// visit map that was not created from this state
+    pub protocol: Vec<String>,
     pub node_indices_len: usize,
     pub edge_indices: Vec<usize>,
     pub edge_indices_rev: Vec<usize>,
@@ -210,6 +224,33 @@ pub fn element_stream(nodes: Vec<(usize, u32)>, edges: Vec<(usize, usize, u32)>,
         }
     }
     out
+}
+
+/// Consume a double-ended iterator from both ends (which end next is read off the bits of a
+/// fixed constant) and return the items in forward order.
+pub fn meet_in_the_middle<I: DoubleEndedIterator>(mut it: I) -> Vec<I::Item> {
+    let pattern: u64 = 0xB5AD_4ECE_DA1C_E2A9;
+    let (mut front, mut back) = (Vec::new(), Vec::new());
+    let mut k = 0u32;
+    loop {
+        let from_front = (pattern >> (k % 64)) & 1 == 1;
+        k += 1;
+        let x = if from_front { it.next() } else { it.next_back() };
+        match x {
+            Some(v) => {
+                if from_front {
+                    front.push(v)
+                } else {
+                    back.push(v)
+                }
+            }
+            None => break,
+        }
+        assert!(front.len() + back.len() < 10_000_000, "a double-ended iterator does not terminate");
+    }
+    back.reverse();
+    front.extend(back);
+    front
 }
 
 #[inline]
@@ -589,6 +630,17 @@ macro_rules! snapshot_common {
         $obs.node_refs_rev = g.node_references().rev().map(|n| (n.id().index(), *n.weight())).collect();
         $obs.edge_refs = g.edge_references().map(|e| (e.id().index(), e.source().index(), e.target().index(), *e.weight())).collect();
         $obs.edge_refs_rev = g.edge_references().rev().map(|e| (e.id().index(), e.source().index(), e.target().index(), *e.weight())).collect();
+        $obs.node_indices_meet = meet_in_the_middle(g.node_indices()).into_iter().map(|i| i.index()).collect();
+        $obs.edge_indices_meet = meet_in_the_middle(g.edge_indices()).into_iter().map(|i| i.index()).collect();
+        $obs.node_refs_meet = meet_in_the_middle(g.node_references()).into_iter().map(|n| (n.id().index(), *n.weight())).collect();
+        $obs.edge_refs_meet = meet_in_the_middle(g.edge_references()).into_iter().map(|e| (e.id().index(), e.source().index(), e.target().index(), *e.weight())).collect();
+        $obs.size_hints = vec![g.node_indices().size_hint(), g.edge_indices().size_hint(), g.node_references().size_hint(), g.edge_references().size_hint()];
+        for i in g.node_indices() {
+            $obs.index_reads.push((true, i.index(), g[i]));
+        }
+        for e in g.edge_indices() {
+            $obs.index_reads.push((false, e.index(), g[e]));
+        }
         for &e in &$plan.edges {
             let ix = ei::<Ix>(e);
             $obs.edge_probe.push((
@@ -644,6 +696,64 @@ macro_rules! snapshot_common {
                 if no.walk_out_edges.len() > 100_000 { panic!("detached walker does not terminate"); }
             }
             $obs.nodes.push(no);
+        }
+        {
+            use crate::engines::iter_protocol as ip;
+            let salt = ($plan.nodes.len() * 31 + $plan.edges.len() * 7 + g.edge_count()) as u64;
+            let mut errs: Vec<String> = Vec::new();
+            let mut chk = |r: Result<(), String>| if let Err(e) = r { errs.push(e) };
+            // the battery costs about ten passes per iterator: on a third of the observations
+            if salt % 3 == 0 {
+            chk(ip("node_indices()", || g.node_indices(), |i| i.index(), salt));
+            chk(ip("edge_indices()", || g.edge_indices(), |i| i.index(), salt));
+            chk(ip("node_weights()", || g.node_weights(), |w| **w, salt));
+            chk(ip("edge_weights()", || g.edge_weights(), |w| **w, salt));
+            chk(ip("node_references()", || g.node_references(), |n| (n.id().index(), *n.weight()), salt));
+            chk(ip("edge_references()", || g.edge_references(), |e| (e.id().index(), e.source().index(), e.target().index(), *e.weight()), salt));
+            chk(ip("externals(Outgoing)", || g.externals(Direction::Outgoing), |i| i.index(), salt));
+            chk(ip("externals(Incoming)", || g.externals(Direction::Incoming), |i| i.index(), salt));
+            // per-node iterators on a few of the probed nodes (rotating with the plan)
+            let np = $plan.nodes.len();
+            for t in 0..np.min(3) {
+                let a = $plan.nodes[(salt as usize + t * 5) % np];
+                let ix = ni::<Ix>(a);
+                chk(ip(&format!("neighbors({})", a), || g.neighbors(ix), |i| i.index(), salt));
+                chk(ip(&format!("neighbors_directed({}, Outgoing)", a), || g.neighbors_directed(ix, Direction::Outgoing), |i| i.index(), salt));
+                chk(ip(&format!("neighbors_directed({}, Incoming)", a), || g.neighbors_directed(ix, Direction::Incoming), |i| i.index(), salt));
+                chk(ip(&format!("neighbors_undirected({})", a), || g.neighbors_undirected(ix), |i| i.index(), salt));
+                chk(ip(&format!("edges({})", a), || g.edges(ix), |e| (e.id().index(), e.source().index(), e.target().index(), *e.weight()), salt));
+                chk(ip(&format!("edges_directed({}, Outgoing)", a), || g.edges_directed(ix, Direction::Outgoing), |e| (e.id().index(), e.source().index(), e.target().index(), *e.weight()), salt));
+                chk(ip(&format!("edges_directed({}, Incoming)", a), || g.edges_directed(ix, Direction::Incoming), |e| (e.id().index(), e.source().index(), e.target().index(), *e.weight()), salt));
+            }
+            if let Some(&(a, b)) = $plan.pairs.get(salt as usize % $plan.pairs.len().max(1)) {
+                chk(ip(&format!("edges_connecting({}, {})", a, b), || g.edges_connecting(ni::<Ix>(a), ni::<Ix>(b)), |e| (e.id().index(), e.source().index(), e.target().index(), *e.weight()), salt));
+            }
+            }
+            // a visit map that does not come from this state (empty, as in `DfsSpace::default()`
+            // or a walker recycled from a smaller graph): reset_map must size it for this graph
+            {
+                use petgraph::visit::{VisitMap, Visitable};
+                let mut fresh = fixedbitset::FixedBitSet::new();
+                Visitable::reset_map(g, &mut fresh);
+                for i in g.node_indices() {
+                    if fresh.is_visited(&i) {
+                        errs.push(format!("reset_map on an empty map leaves node {} visited", i.index()));
+                    }
+                    if !fresh.visit(i) {
+                        errs.push(format!("visit({}) after reset_map on an empty map returned false", i.index()));
+                    }
+                }
+                let mut small = fixedbitset::FixedBitSet::with_capacity(1);
+                small.insert(0);
+                Visitable::reset_map(g, &mut small);
+                for i in g.node_indices() {
+                    if small.is_visited(&i) {
+                        errs.push(format!("reset_map on a smaller used map leaves node {} visited", i.index()));
+                    }
+                    small.visit(i);
+                }
+            }
+            $obs.protocol = errs;
         }
         for &(a, b) in &$plan.pairs {
             let (ia, ib) = (ni::<Ix>(a), ni::<Ix>(b));
